@@ -342,12 +342,9 @@ func (c *Cluster) Kill(w *Worker) {
 		}
 	}
 	if db := w.Op.VerifDB(); db != nil {
-		d := make(chan struct{})
-		go func() { db.WaitOnTasks(); close(d) }()
-		select {
-		case <-d:
-		case <-time.After(Watchdog):
-		}
+		// process-wide idleness: other workers may still be flushing, so this is bounded; Shutdown waits again
+		// after the last worker is gone
+		lib.DKVIdle(300 * time.Millisecond)
 	}
 }
 
@@ -459,6 +456,7 @@ func (c *Cluster) StopAll() {
 	for _, w := range c.Workers() {
 		c.Kill(w)
 	}
+	lib.DKVIdle(Watchdog) // every worker is gone: nothing may still write when the case removes its directory
 }
 
 // ---- accessors for recorded data
